@@ -33,8 +33,9 @@ bulks without nested metas - see the header).  Discharged inside: the decoder (`
 C02 index, C05's loop, C16's merge / page, C09's acknowledgement, findability at Spec level, soundness.
 
 Hypotheses left, by kind:
-* **junction J'** (to be replaced by `c01_bulk_handler_ack` when it lands): a replica `Bulk` call that returned success is an
-  acknowledged `Active.Append` of the payload's two blocks `blk` in that store's history, on a shard that is read;
+* **junction J'** (to be replaced by `c01_bulk_handler_ack` when it lands): for the shard all of whose replicas returned success (C09's full set - the per-success form
+  is false for R >= 2, Consistency/SysJunction.lean) the payload's two blocks `blk` are an acknowledged bulk of the serving
+  store's history `Hst s`, on a shard that is read; DISCHARGED from the transport premise in `sys_ingest_to_read_transport`;
 * **R** (environment): the only bulks that deliver this document's ID are re-sends of this payload (RID non-collision);
 * **C12 literal**: the query is the literal `field:value` (from query text: `c12_toQuery_docMatches`, C11 `c11_text/keyword`);
 * **shape of the histories** (the nested-meta restriction and well-formed events): `hwf hd hs hg`;
@@ -58,9 +59,9 @@ theorem sys_ingest_to_read (c : Merge.Cfg) (f v : Bytes) (from_ to_ : Nat) (hot 
       ∃ r, Merge.searchDocs c (storeFracs [activeFrac (reached (handed sysDecC10 (Hst s)))] (.leaf (.lit f [.text v])) from_ to_)
         from_ to_ (offset + size) = some r ∧ r.ids = ids.map keyOf)
     (coldT hotT : Replica.Tier) (oracle : List (List (Nat × Replica.Call) × List (Nat × Replica.Call)))
-    (hack : (Replica.storeDocuments coldT hotT oracle Replica.init).1 = true) (hS : hotT.S ≠ 0) (hR : 0 < hotT.R)
+    (hack : (Replica.storeDocuments coldT hotT oracle Replica.init).1 = true) (hS : hotT.S ≠ 0)
     (blk : WPath.Blk × WPath.Blk)
-    (J' : ∀ s r, (s, r) ∈ (Replica.storeDocuments coldT hotT oracle Replica.init).2.hotLog →
+    (J' : ∀ s, (∀ r, r < hotT.R → (s, r) ∈ (Replica.storeDocuments coldT hotT oracle Replica.init).2.hotLog) →
       s < hot.length ∧ blk ∈ WPath.ackedOf (Hst s))
     (m : Collector.Meta) (hm : m ∈ sysDecC10 (WPath.enc blk.2))
     (R : ∀ s, ∀ b ∈ handed sysDecC10 (Hst s), (∃ m' ∈ b, m'.id = m.id) → b = sysDecC10 (WPath.enc blk.2))
@@ -81,17 +82,17 @@ theorem sys_ingest_to_read (c : Merge.Cfg) (f v : Bytes) (from_ to_ : Nat) (hot 
     simp only [List.mem_singleton] at hfr
     subst hfr
     exact (sys_i1_active _ (hd s) (hs s) (hg s) from_).1
-  have serve : ∀ s r, (s, r) ∈ (Replica.storeDocuments coldT hotT oracle Replica.init).2.hotLog →
+  have serve : ∀ s, (∀ r, r < hotT.R → (s, r) ∈ (Replica.storeDocuments coldT hotT oracle Replica.init).2.hotLog) →
       s < hot.length ∧ ∃ d ∈ storedDocs ((fun s => [activeFrac (reached (handed sysDecC10 (Hst s)))]) s),
         d.id = ActiveReach.toID m.id ∧ (f, v) ∈ d.tokens := by
-    intro s r hsr
-    obtain ⟨hlt, hacked⟩ := J' s r hsr
+    intro s hsr
+    obtain ⟨hlt, hacked⟩ := J' s hsr
     have hB := (sys_i1_replayed sysDecC10 sys_extBlind_decC10 (Hst s) (hwf s)).1 blk hacked
     have hsame := sys_hsame_of_retries _ (hd s) _ hB m hm (R s)
     obtain ⟨d, hdIn, hdid, hdtok⟩ := sys_i1_redelivered _ (hd s) (hs s) (hg s) from_ _ hB m hm hsame
     exact ⟨hlt, d, hdIn, hdid, by rw [← hfv]; exact hdtok tok htok⟩
   obtain ⟨ids, t, e, h1, h2, h3, h4⟩ := sys_served_found c f v from_ to_ hot hotArr coldArr hh offset size hlim rev hdesc
-    (fun s => [activeFrac (reached (handed sysDecC10 (Hst s)))]) hok hmax hne hall hans coldT hotT oracle hack hS hR
+    (fun s => [activeFrac (reached (handed sysDecC10 (Hst s)))]) hok hmax hne hall hans coldT hotT oracle hack hS
     (ActiveReach.toID m.id) hwin serve
   refine ⟨ids, t, e, h1, h2, h3, ?_⟩
   intro x hx
@@ -197,9 +198,9 @@ theorem sys_ingest_to_read_mixed (names : List Bytes) (c : Merge.Cfg) (f v : Byt
       ∃ r, Merge.searchDocs c (storeFracs (fracs s) (.leaf (.lit f [.text v])) from_ to_) from_ to_ (offset + size) = some r ∧
         r.ids = ids.map keyOf)
     (coldT hotT : Replica.Tier) (oracle : List (List (Nat × Replica.Call) × List (Nat × Replica.Call)))
-    (hack : (Replica.storeDocuments coldT hotT oracle Replica.init).1 = true) (hS : hotT.S ≠ 0) (hR : 0 < hotT.R)
+    (hack : (Replica.storeDocuments coldT hotT oracle Replica.init).1 = true) (hS : hotT.S ≠ 0)
     (B : List Collector.Meta) (m : Collector.Meta) (hm : m ∈ B)
-    (J : ∀ s r, (s, r) ∈ (Replica.storeDocuments coldT hotT oracle Replica.init).2.hotLog →
+    (J : ∀ s, (∀ r, r < hotT.R → (s, r) ∈ (Replica.storeDocuments coldT hotT oracle Replica.init).2.hotLog) →
       s < hot.length ∧ HoldsC names (fracs s) B m)
     (tok : Collector.MetaToken) (htok : tok ∈ m.tokens)
     (hfv : ActiveReach.splitTok tok.bytes = (f, v)) (hwin : from_ ≤ m.id.1 ∧ m.id.1 ≤ to_) :
@@ -210,9 +211,9 @@ theorem sys_ingest_to_read_mixed (names : List Bytes) (c : Merge.Cfg) (f v : Byt
       (∀ x ∈ ids, ∃ d ∈ allDocs hot.length fracs, d.id = toSpecID x.1 ∧ inWindow from_ to_ d = true ∧
         docMatches (.leaf (.lit f [.text v])) d = true) := by
   apply sys_served_found c f v from_ to_ hot hotArr coldArr hh offset size hlim rev hdesc fracs hok hmax hne hall hans
-    coldT hotT oracle hack hS hR (ActiveReach.toID m.id) hwin
-  intro s r hsr
-  obtain ⟨hlt, H⟩ := J s r hsr
+    coldT hotT oracle hack hS (ActiveReach.toID m.id) hwin
+  intro s hsr
+  obtain ⟨hlt, H⟩ := J s hsr
   obtain ⟨d, hdIn, hdid, hdtok⟩ := sys_i1_mixed_closed names from_ (fracs s) B m hm H
   exact ⟨hlt, d, hdIn, hdid, by rw [← hfv]; exact hdtok tok htok⟩
 
